@@ -109,7 +109,7 @@ func DefaultProfile(prop string) Profile {
 		PWrap: 0.3, PListener: 0.2, PEwma: 0.15, PBuiltin: 0.1, PPop: 0.2, PRm: 0.2, PNoPop: 0.2, PTerminal: 0.3, PDelay: 0.1, PNotifier: 0.3, PUserWG: 0.15,
 		WWrite: 2, WPrio: 2, WGet: 3, WRefill: 1, WSleep: 3, WRefresh: 4, WIncr: 8, WSet: 2, WEwma: 2, WTotal: 1,
 		PQueueAfter: 0.0, PExt: 0.2, PAbortFinish: 0.25, PDropOnAbort: 0.4, PLate: 0.2, PClientAdd: 0.4, PCancelEnd: 0, PPostTerminalOps: 0.1,
-		PZeroTotal: 0.25, PExplicitPrio: 0.3, PLazy: 0.5, PJoin: 0.2, PManualRefresher: 0.8, StrategyW: [4]int{3, 3, 1, 3}}
+		PZeroTotal: 0.25, PExplicitPrio: 0.3, PLazy: 0.5, PJoin: 0.2, PManualRefresher: 0.8, StrategyW: [4]int{3, 3, 1, 3}, PrioAfterFinish: true}
 }
 
 var refreshRates = []int64{1e6, 1e7, 15e7, 1e9, 3600e9}
